@@ -1,7 +1,7 @@
 (* Properties_C11.v -- any pattern string is safely rejected or compiled; matching stays in bounds.
    Statements only; proofs are in ReProps*.v. *)
 From Coq Require Import List NArith ZArith.
-From NV Require Import Bytes GenConsts ReSyntax ReParse ReEmit ReVM ReSem RsetDefs ReProps ReProps2 ReProps3 ReProps4 ReProps5 ReProps6 ReProps7 ReProps8 ReProps10.
+From NV Require Import Bytes GenConsts ReSyntax ReParse ReEmit ReVM ReSem RsetDefs ReProps ReProps2 ReProps3 ReProps4 ReProps5 ReProps6 ReProps7 ReProps8 ReProps10 ReProps11 ReProps12.
 Import ListNotations.
 
 (* for EVERY byte string: if regcomp accepts it, the emitted program (MARK 0, code, MARK 1, MATCH)
@@ -49,6 +49,19 @@ Theorem C11_regexec_terminates : forall pat p cflg line nsub eflg d,
   regcomp pat = Ok (Some p) -> Forall (fun b => b <> 0%N) line -> fst (regexec_d d p cflg line nsub eflg) <> NoFuel.
 Proof. exact regexec_terminates. Qed.
 Print Assumptions C11_regexec_terminates.
+
+(* the atom matcher never reads or steps past a terminator: at every position inside the line it
+   returns a new position or a mismatch (for every atom, also with invalid UTF-8 in atom or line) *)
+Theorem C11_atom_in_bounds : forall flg line a p, p <= length line -> exists v, ratom_match flg line a p = Ok v.
+Proof. exact ratom_match_ok. Qed.
+Print Assumptions C11_atom_in_bounds.
+
+(* regexec on any accepted pattern and any NUL-free line returns a proper answer (a match or no match):
+   never the out-of-bounds result, never out of fuel *)
+Theorem C11_regexec_total : forall pat p cflg line nsub eflg d,
+  regcomp pat = Ok (Some p) -> Forall (fun b => b <> 0%N) line -> exists x, fst (regexec_d d p cflg line nsub eflg) = Ok x.
+Proof. exact regexec_total. Qed.
+Print Assumptions C11_regexec_total.
 
 (* for EVERY accepted pattern string, every line, flags and depth: each (so, eo) pair regexec reports is
    -1/-1 or satisfies 0 <= so <= eo <= length of the line (positions only grow and never pass the end
